@@ -106,6 +106,8 @@ func (e *Env) resolveType(s string) (sort string, goT types.Type) {
 		return SInt, types.Universe.Lookup("error").Type()
 	case "Slice":
 		return SSlice, nil
+	case "float64":
+		return SFloat, types.Typ[types.Float64]
 	}
 	if strings.HasPrefix(s, "set[") && strings.HasSuffix(s, "]") {
 		ks, _ := e.resolveType(s[4 : len(s)-1])
